@@ -38,6 +38,14 @@ CONFIG = {
   "level_text": "Machine-checked theorems (Lean 4) over a model of the access kernels (loops over nalgebra linear and (row, col) indexing with the 1-based `ix - 1` conversion) for all shapes and index lists: two scalar indices read exactly x(i,j) (iff); every slice that returns a value is the |R|x|C| matrix of x(R_a, C_b) for the rows/columns the selectors address (index vectors with repeats, ranges, `:`, masks), in-range selectors are always served, any index that addresses no element (0, beyond the extent) is an error, a mask selects exactly the true positions and must have the extent's length; the same for one-position (column-major linear) indexing. Tied to the code by enumerating every (storage form, selector class, selector class) cell with in-range and boundary out-of-range indices over all element kinds, re-reading the variable afterwards.",
   "level_note": "Trusted: Lean kernel + propext/Classical.choice/Quot.sound; harness rendering; the support table (which combinations have an arm) is data transcribed from the arm lists and re-enumerated on every run. Combinations without an arm are errors where values exist (known finding C03-D4). A fix: commit added the missing logical-index length checks and the column-major fill of x[mask,:] (C03-D1..D3).",
  },
+ "C04": {
+  "engine": "core",
+  "rule": "table-driven: every (storage form, operator = += -= *= /=, scalar or vector source, temporary or variable source, selector class, selector class, element kind) combination explored at the pinned commit (23273 pairs) is labelled ok / unsupported / deviant in harness/src/c04_cells.txt; a run enumerates the ok pairs (quick: a seeded third) with in-range targets and their error paths (index 0, extent+1, short/long masks, short/long sources, wrong source kind), a sample of the unsupported pairs, and the recorded witnesses of the deviant cells; the variable is read back after every statement; distinct = distinct case lines",
+  "trusted": ["the support table is data obtained by enumeration (tools/assign_table.py); it only decides which cells are generated and which clean errors are attributed to finding C04-D7"],
+  "assumptions": ["index vectors are duplicate-free (the property speaks of distinct linear indices)", "two-selector targets take scalar sources only (matrix sources have ad-hoc per-column semantics outside the property)"],
+  "level_text": "Machine-checked theorems (Lean 4) over the in-place write loop of the assignment kernels, for all matrices, index lists and combining functions (= and op=): frame (shape, element count and every unaddressed element unchanged, on success and on failure), a successful assignment through distinct in-range indices sets the j-th addressed element to f(old, j-th source element), read-back returns what was written, failure is atomic when the selector or the first target fails; the full atomicity statement is refuted by a kernel-checked counterexample (C04-D4). The model is tied to the code by differential runs over every supported cell of the enumerated support table; the implementation is additionally compared with the all-or-nothing reference `update` on every case.",
+  "level_note": "Trusted: Lean kernel + propext/Classical.choice/Quot.sound; harness rendering. Partial: only ~19% of the explored (cell, kind) pairs are implemented correctly at the pinned commit; unsupported pairs (C04-D7), wrong-result cells (C04-D8, recorded witnesses) and the non-atomic error path (C04-D4, a decidable behaviour predicate) are known findings.",
+ },
  "C07": {
   "engine": "bytecode",
   "rule": "CRC model vs crc32fast on random byte strings; 14 emitted files x (pristine load, byte-exact re-encode, all single-bit flips and all truncations for 3 files (thorough: all), sampled flips/truncations/bursts<=32 bits incl. bursts reaching the trailer); random byte strings; random instruction lists through write_to/from_bytes; distinct = distinct case lines",
